@@ -61,6 +61,9 @@ func (c12) Case(c *core.Ctx) {
 	if r.Intn(4) == 0 {
 		root = g.Map(r, 1+r.Intn(4))
 	}
+	if r.Intn(6) == 0 {
+		c.Add("shape:aliased-submaps", int64(jv.Alias(r, root, 1+r.Intn(2), nil)))
+	}
 	before := jv.Fp(root)
 	orig := jv.Copy(root)
 	anyWild := false
@@ -159,6 +162,19 @@ func (c12) Case(c *core.Ctx) {
 		c.Count("ambient:fieldsep")
 	}
 	c.Eval()
+	failedCalls(c, 8)
+	if r.Intn(10) == 0 {
+		e1, er1 := mxj.Map(root).NewMap()
+		if er1 != nil || len(e1) != 0 {
+			c.Violate("c12-content", "NewMap() without key pairs is not an empty Map", core.D{"result": jv.Show(e1), "err": fmt.Sprint(er1)})
+		} else {
+			e1["written-by-the-caller"] = c.Index // the result belongs to the caller
+			if e2, _ := (mxj.Map{"other": 1}).NewMap(); len(e2) != 0 {
+				c.Violate("c12-content", "NewMap() without key pairs returned a Map that an earlier caller had written to", core.D{"result": jv.Show(e2)})
+			}
+		}
+		c.Count("zero-pairs")
+	}
 	res, err := mxj.Map(root).NewMap(specs...)
 	if jv.Cyclic(root) || jv.Cyclic(map[string]interface{}(res)) {
 		class := "c12-receiver-modified"
